@@ -216,6 +216,21 @@ func (fx *FuncCtx) memberGoal(st *State, fams []famInst, rid, addr Term, extra [
 	// a small goal first: witnesses from the access itself, the loop counters, the contract's
 	// hints and the polynomial decomposition; if that is provable quickly it is the obligation
 	// (small queries are the stable ones), otherwise the full witness search
+	// an address that is a merge of two branches (sub-slice chosen under a flag): decide each
+	// branch with its own witnesses
+	if fx.iteSplitDepth < 2 {
+		if c, a1, a2, ok := splitFirstIte(fx.expandIteDefs(addr)); ok {
+			fx.iteSplitDepth++
+			s1 := st.clone()
+			s1.assume(c)
+			g1 := fx.memberGoal(s1, fams, rid, a1, extra)
+			s2 := st.clone()
+			s2.assume(Not(c))
+			g2 := fx.memberGoal(s2, fams, rid, a2, extra)
+			fx.iteSplitDepth--
+			return And(Implies(c, g1), Implies(Not(c), g2))
+		}
+	}
 	// a region allocated during this call (negative id; a merged "nil ? fresh : given" slice is
 	// not syntactically an allocation) is not part of the caller-visible frame
 	fresh := tFalse
@@ -228,6 +243,59 @@ func (fx *FuncCtx) memberGoal(st *State, fams []famInst, rid, addr Term, extra [
 		}
 	}
 	return Or(fresh, fx.memberGoalLevel(st, fams, rid, addr, extra, false))
+}
+
+// expandIteDefs replaces named abbreviations (define) whose body contains an ite by their body.
+func (fx *FuncCtx) expandIteDefs(t Term) Term {
+	for round := 0; round < 3; round++ {
+		changed := false
+		for name, body := range fx.defs {
+			if strings.Contains(body, "(ite ") && replaceSym(t.S, name, "") != t.S {
+				t = Term{replaceSym(t.S, name, body), t.Sort}
+				changed = true
+			}
+		}
+		if !changed {
+			break
+		}
+	}
+	return t
+}
+
+// splitFirstIte finds the first (ite c a b) of sort Int inside t whose condition has no bound
+// variable and returns c and the two terms with the ite replaced by a resp. b.
+func splitFirstIte(t Term) (Term, Term, Term, bool) {
+	i := strings.Index(t.S, "(ite ")
+	if i < 0 {
+		return Term{}, Term{}, Term{}, false
+	}
+	depth, end := 0, -1
+	for j := i; j < len(t.S); j++ {
+		if t.S[j] == '(' {
+			depth++
+		} else if t.S[j] == ')' {
+			depth--
+			if depth == 0 {
+				end = j + 1
+				break
+			}
+		}
+	}
+	if end < 0 {
+		return Term{}, Term{}, Term{}, false
+	}
+	n := parseSx(t.S[i:end])
+	if len(n.kids) != 4 {
+		return Term{}, Term{}, Term{}, false
+	}
+	c := n.kids[1].String()
+	// only flags (a boolean symbol, possibly negated): splitting on arithmetic conditions such as
+	// the sign of a uintptr increment would change every kernel obligation
+	if hasBoundVar(c) || strings.ContainsAny(strings.TrimSuffix(strings.TrimPrefix(c, "(not "), ")"), "() ") {
+		return Term{}, Term{}, Term{}, false
+	}
+	ite := t.S[i:end]
+	return Term{c, SBool}, Term{strings.ReplaceAll(t.S, ite, n.kids[2].String()), t.Sort}, Term{strings.ReplaceAll(t.S, ite, n.kids[3].String()), t.Sort}, true
 }
 
 func (fx *FuncCtx) primaryCands(st *State, extra []Term) []Term {
